@@ -12,12 +12,19 @@
                           argument tuples (real runs are checked against it with sentinel objects).
     * the step handed to the main loop never has a negative predicted reduction: `C13.zero_step_rule`.
     * soln.obj includes h(x): C03 / C17 (`C17_obj_matches`).
+    * `C06_sfista_parameters` / `C06_sfista_returns_bound_names` — the parameter block of the S-FISTA sub-problem
+                          solver (iteration count, smoothing parameter, Lipschitz constant), TRANSLATED from
+                          trust_region.py on every run, is well defined over the reals for the inputs the
+                          Controller passes: 1 ≤ MAX_LOOP_ITERS ≤ max_iters, u > 0, l > 0, and `gnew` (bound
+                          only by the loop body) is bound at the `return`.  The same translated terms are run
+                          in IEEE doubles against the real function (driver SfistaMain).
   NOT proved (stated): `C06_full` — convergence of the outer iteration + S-FISTA to within
   1e-3(1+F*) and the success flag: a convergence-with-rounding statement; the search decides it on
   the property's input space against a long-run proximal-gradient oracle.
 -/
 import DfolsVerif.Properties.C01
 import DfolsVerif.Proofs.HCalls
+import DfolsVerif.Proofs.Sfista
 
 namespace Dfols
 namespace C06
@@ -74,6 +81,31 @@ theorem C06_src_h_calls :
      (∀ w ∈ Gen.sfistaWiring, w.2.1 = "self.argsh" ∧ w.2.2.1 = "self.argsprox" ∧ w.2.2.2.1 = "self.h" ∧ w.2.2.2.2 = "self.prox_uh") ∧
      Gen.sfistaWiring.length = 4) :=
   ⟨HCalls.h_sees_user_coordinates, HCalls.model_value_h, HCalls.prox_args_pass_through⟩
+
+/-! ### layer G: the S-FISTA parameter block (translated from trust_region.ctrsbox_sfista on every run) -/
+
+/-- **the regularised sub-problem solver's parameters are well defined**: for delta > 0, L_h > 0 (`solve` rejects
+    lh ≤ 0), func_tol > 0, `sfista.max_iters_scaling` ≥ 1 and `func_tol.max_iters` ≥ 1 (parameter table), ‖H‖₂ ≥ 0:
+    the loop runs at least once and at most `max_iters` times, and the smoothing parameter `u` and the Lipschitz
+    constant `l = k_H + 1/u` are strictly positive — no division by zero in `2*delta/(MAX_LOOP_ITERS*L_h)`, `1/u`,
+    `g_Fu / l`.  (Real arithmetic; underflow of the bound to 0.0 is outside the model.) -/
+theorem C06_sfista_parameters (scale delta Lh kH tol : ℝ) (maxIters : ℕ)
+    (hs : 1 ≤ scale) (hd : 0 < delta) (hL : 0 < Lh) (hk : 0 ≤ kH) (ht : 0 < tol) (hm : 1 ≤ maxIters) :
+    let K := Gen.sfistaIters Sfista.realOps scale delta Lh kH tol maxIters
+    let u := Gen.sfistaU Sfista.realOps K delta Lh
+    1 ≤ K ∧ K ≤ maxIters ∧ 0 < u ∧ 0 < Gen.sfistaLip Sfista.realOps kH u ∧ 1 ≤ Gen.sfistaItersFallback maxIters := by
+  intro K u
+  have hK := Sfista.iters_bounds hs hd hL hk ht hm
+  have hu : 0 < u := Sfista.u_pos hK.1 hd hL
+  exact ⟨hK.1, hK.2, hu, Sfista.lip_pos hk hu, Sfista.fallback_bounds hm⟩
+
+/-- the names `ctrsbox_sfista` returns are bound before its loop or unconditionally by the loop body, the loop is
+    `for k in range(MAX_LOOP_ITERS)` without early exit — with `C06_sfista_parameters` (≥ 1 iteration) every returned
+    name is bound (`gnew` is bound ONLY by the loop body) -/
+theorem C06_sfista_returns_bound_names :
+    (∀ r ∈ Gen.sfistaReturn, r.boundBeforeLoop = true ∨ r.boundInLoopBody = true) ∧
+    Gen.sfistaLoopHeader = "for k in range(MAX_LOOP_ITERS)" ∧ Gen.sfistaLoopEarlyExits = [] :=
+  Sfista.return_bound_after_one_iteration
 
 end C06
 end Dfols
